@@ -6,6 +6,7 @@ import (
 	"bytes"
 	"encoding/hex"
 	"sort"
+	"strconv"
 	"strings"
 
 	"github.com/ChainSafe/gossamer/internal/database"
@@ -223,6 +224,12 @@ func c06Probes(ops []string) [][]byte {
 }
 
 func c06Run(line string) string {
+	switch line {
+	case "const V1MaxInlineValueSize":
+		return strconv.Itoa(trie.V1.MaxInlineValue())
+	case "const HashLength":
+		return strconv.Itoa((*new(hash.H256)).Length())
+	}
 	i := strings.IndexByte(line, '|')
 	if i < 0 {
 		return "bad-op"
